@@ -12,7 +12,9 @@ import (
 	"testing"
 	"time"
 
+	metallbv1beta2 "go.universe.tf/metallb/api/v1beta2"
 	"go.universe.tf/metallb/internal/bgp"
+	"go.universe.tf/metallb/internal/config"
 	"go.universe.tf/metallb/internal/bgp/community"
 	metallbconfig "go.universe.tf/metallb/internal/config"
 )
@@ -387,6 +389,18 @@ func c14Case(c *vfCase) {
 	}
 	k := &c14Checker{c: c, prog: &prog, text: text}
 	if vfFRRPeerLabelCollision(&prog) {
+		// ask the real FRR-mode validator whether it lets this peer set through at all
+		var res config.ClusterResources
+		for i, s := range prog.Sessions {
+			p := metallbv1beta2.BGPPeer{}
+			p.Name = fmt.Sprintf("peer%d", i)
+			p.Spec.MyASN, p.Spec.ASN, p.Spec.Address, p.Spec.Interface, p.Spec.VRFName, p.Spec.RouterID = s.MyASN, s.PeerASN, s.Addr, s.Iface, s.VRF, s.RouterID
+			res.Peers = append(res.Peers, p)
+		}
+		if err := config.DiscardNativeOnly(res); err != nil {
+			c.Count("programs-with-peer-label-collision-rejected-by-validator")
+			return
+		}
 		k.clash = true
 		c.Count("programs-with-peer-label-collision")
 	}
